@@ -29,6 +29,7 @@ type Solver struct {
 	out           *bufio.Reader
 	defined       map[uint32]bool
 	stack         []*Term // conjuncts currently asserted, one push level each
+	declared      []*Term
 	Queries       int
 	Time          time.Duration
 	NSat          int
@@ -69,6 +70,7 @@ func (s *Solver) start() {
 	s.out = bufio.NewReaderSize(out, 1<<20)
 	s.defined = map[uint32]bool{}
 	s.stack = nil
+	s.declared = nil
 	if s.bin == "cvc5" {
 		fmt.Fprintln(s.in, "(set-logic QF_BV)")
 	}
@@ -97,6 +99,7 @@ func (s *Solver) define(sb *strings.Builder, t *Term) {
 	s.defined[t.id] = true
 	if t.op == OpVar {
 		fmt.Fprintf(sb, "(declare-const %s %s)\n", t.name, sortStr(t.w))
+		s.declared = append(s.declared, t)
 		return
 	}
 	s.define(sb, t.a)
@@ -131,12 +134,12 @@ func (s *Solver) check1(conj []*Term, timeoutMs int) (Res, Model) {
 	t0 := time.Now()
 	defer func() { s.Time += time.Since(t0); s.Queries++ }()
 	var sb strings.Builder
-	seen := map[*Term]bool{}
-	var vars []*Term
 	for _, c := range conj {
 		s.define(&sb, c)
-		c.Vars(seen, &vars)
 	}
+	// values are requested for every variable declared so far in this solver process (names are reused across paths,
+	// so the set stays small); walking the whole path condition for its variables at every query was a hot spot
+	vars := s.declared
 	if s.bin == "cvc5" {
 		fmt.Fprintf(&sb, "(set-option :tlimit-per %d)\n", timeoutMs)
 	} else {
